@@ -90,6 +90,8 @@ def reference_optimum(spec, limit=6000):
         # enumeration needs a grid: any optimum of these micro problems lies below 8
         s0["problem"] = dict(s0["problem"], horizon=8)
     best, n = None, 0
+    if cd.grid_size(s0, wide=False) > limit:
+        return None, 0      # not enumerable: the fresh-instance re-ask is the only reference
     d = direction(spec["objectives"][0])
     for cand in cd.enumerate_candidates(s0, wide=False, limit=limit, rng=random.Random(0), dyn_wide=False):
         status, _rep = cd.classify(s0, cand)
@@ -209,7 +211,10 @@ def run_opt(case):
         return acc.result()
     acc.sample = {"spec": spec, "solver": cfg, "fault": fault, "returned_value": got, "incumbents": incumbents,
                   "checks": checks}
-    if defined is not None and not multi_nonweighted:
+    # the makespan objective minimises the horizon unknown, which is only an upper bound of the task ends until
+    # the optimum is reached: after an early stop it legitimately exceeds max(end) (C11 only demands horizon >= ends)
+    horizon_objective = any(o["kind"] == "Makespan" for o in spec["objectives"])
+    if defined is not None and not multi_nonweighted and not (fault and horizon_objective):
         ok = abs(defined - got) < 1
         acc.count(acc.clauses, f"C07.value_eq_definition:{'T' if ok else 'F'}")
         if not ok:
@@ -339,9 +344,35 @@ def specs(tier):
     return out
 
 
+def random_specs(tier, seed):
+    """larger random compositions with one objective (thorough tier)"""
+    from .. import gen
+    out = []
+    n = 0 if tier == "quick" else 160
+    i = 0
+    while len(out) < n:
+        r = random.Random(f"{seed}-c07-rand-{i}")
+        i += 1
+        spec = gen.random_spec(r, H=r.randint(8, 14), n_tasks=r.randint(3, 5), profile={"buffers": 0.0, "optional": 0.15})
+        names = [t["name"] for t in spec["tasks"]]
+        k = r.choice(["Makespan", "Flowtime", "Priorities", "StartEarliest", "GreatestStart", "user_min", "user_max"])
+        if k.startswith("user"):
+            mand = [t["name"] for t in spec["tasks"] if not t.get("optional")]
+            if len(mand) < 1:
+                continue
+            e = ["+", ["end", mand[0]], ["start", mand[-1]]]
+            spec["indicators"] = [{"id": "i", "kind": "FromExpr", "name": "qq", "expr": e}]
+            spec["objectives"] = [{"kind": "MinimizeIndicator" if k == "user_min" else "MaximizeIndicator",
+                                   "indicator": "i", "weight": 1}]
+        else:
+            spec["objectives"] = [{"kind": k}]
+        out.append((f"rand{i}.{k}", spec))
+    return out
+
+
 def generate(tier, seed):
     cases = []
-    for name, spec in specs(tier):
+    for name, spec in specs(tier) + random_specs(tier, seed):
         multi = len(spec["objectives"]) > 1
         cfgs = [{"optimizer": "incremental"}, {"optimizer": "optimize", "optimize_priority": "lex"},
                 {"optimizer": "optimize", "optimize_priority": "weight"}]
